@@ -20,7 +20,7 @@ Init == /\ tid \in 1..Len(T.traces) /\ l = 1 /\ verdict = "ok"
 Step ==
   /\ verdict = "ok" /\ l <= Len(Tr.ticks)
   /\ LET e == Tr.ticks[l]
-         pre == IF e.first_of_run THEN R!Rewind(e.run_init, e.now).st ELSE cur
+         pre == IF e.first_of_run THEN R!Rewind(e.run_init, e.run_now).st ELSE cur   \* rewind happened when the run started
          r == R!Reduce(pre, e.tick, e.now)
      IN /\ verdict' = IF r.st # e.post THEN "state"
                       ELSE IF R!Pubs(r.cmds) # e.pubs THEN "pubs"
